@@ -1,5 +1,5 @@
 (* Cases.v — concrete instances used when the models are *run* (correspondence), never in theorems. *)
-From Beff Require Export Model.Validate Model.Parse Model.Report Model.Hash256Enc Model.Bdd Model.SemType Model.Schema Model.Describe Model.Session.
+From Beff Require Export Model.Validate Model.Parse Model.Report Model.Hash256Enc Model.Bdd Model.SemType Model.Schema Model.Describe Model.Session Model.ShowRt.
 
 Fixpoint str_len (s : string) : nat := match s with EmptyString => 0 | String _ s' => S (str_len s') end.
 
@@ -45,6 +45,20 @@ Definition run_hash32 (env : renv) (r : rt) : string :=
   show_res Z_to_string (hash32 env FUEL [] r).
 Definition run_describe (env : renv) (name : string) (hide : bool) (r : rt) : string :=
   show_res (fun s => s) (describe_top env FUEL name hide r).
+(* ---------- the printer and the meaning of the IR (C01) ---------- *)
+Definition PFUEL : nat := 60.
+Definition run_print (env : ienv) (prefer : list string) (t : ir) : string :=
+  show_res show_rt (print env prefer PFUEL t).
+Definition run_print_env (env : ienv) (prefer : list string) : string :=
+  show_res show_env (print_env env prefer PFUEL).
+Definition run_rmember (env : ienv) (t : ir) (v : val) : string :=
+  show_res show_bool (rmember F0 env FUEL t v).
+(* what a theorem 'validate (print t) = rmember t' would say, evaluated on one case *)
+Definition run_printed_validate (env : ienv) (prefer : list string) (t : ir) (v : val) : string :=
+  match print_env env prefer PFUEL, print env prefer PFUEL t with
+  | Ok renv', Ok r => show_res show_bool (validate F0 renv' FUEL false r v)
+  | Throw e, _ | _, Throw e => show_exn e
+  end.
 Definition run_writer (writes : list (list N)) : string :=
   writer_hex writes +++ "|" +++ sha256_hex (List.concat writes).
 
